@@ -34,6 +34,10 @@ theorem tables_are_modelled :
     ∧ RKind.reply.code ≠ RKind.exc.code := by
   decide
 
+/-- **obligation on the code** (measured on the live `Connection._dispatch` by the constants generator): a response — reply
+or exception — whose payload cannot be decoded is delivered to its waiter as an error instead of leaving `_dispatch` -/
+theorem obligation_decode_guarded : Gen.Proto.responseDecodeGuarded = true := decode_guarded
+
 /-! ### (1) sequence numbers -/
 
 /-- **seq_fresh.** The sequence numbers of the request frames a side has put on the wire are strictly
